@@ -241,6 +241,9 @@ func (c03) Exec(pj json.RawMessage, tape *simrt.Tape, keepLog bool) harness.RunO
 		facts = "/probe"
 	}
 	meta, ok := byName[p.Prog]
+	if p.Probe && len(meta.Features) > 0 {
+		facts = "/probe/" + meta.Features[0] // one finding per probe shape
+	}
 	for _, f := range meta.Features {
 		if f == "loop-var-captured-directly" {
 			facts = "/loop-var-captured-directly"
